@@ -785,29 +785,42 @@ def _reach_straight(f, b, limit=12):
 
 def tab_cli_color(run, pc):
     R = "TAB-cli"
-    arms = {a["lit"]: a for a in T.str_eq_arms(pc)}
-    ok = True
-    got = {}
-    for lit, want in (("on", 1), ("off", 0)):
-        a = arms.get(lit)
-        if not a:
-            ok = False
+    # the table is in parse_command itself, or in a private helper of the driver that it calls
+    cands = [pc] + [h for h in (run.prog.fn(t.get("resolved") or "") for _, t in pc.calls() if t.get("resolved_local")) if h is not None and h.id.startswith("driver::")]
+    best = None
+    for f in cands:
+        arms = {a["lit"]: a for a in T.str_eq_arms(f)}
+        if "on" not in arms and "off" not in arms:
             continue
-        val = None
-        b = a["true"]
-        for _ in range(4):
-            for st in pc.blocks[b]["stmts"]:
-                if st["k"] == "assign" and st["rv"]["k"] == "use" and const_int(st["rv"]["op"]) is not None and pc.local_ty(st["place"]["l"]) == "bool":
-                    val = const_int(st["rv"]["op"])
-            if val is not None:
-                break
-            s = pc.succs(b)
-            if len(s) != 1:
-                break
-            b = s[0]
-        got[lit] = val
-        if val != want:
-            ok = False
+        ok = True
+        got = {}
+        for lit, want in (("on", 1), ("off", 0)):
+            a = arms.get(lit)
+            if not a:
+                ok = False
+                continue
+            val = None
+            b = a["true"]
+            for _ in range(4):
+                for st in f.blocks[b]["stmts"]:
+                    if st["k"] == "assign" and st["rv"]["k"] == "use" and const_int(st["rv"]["op"]) is not None and f.local_ty(st["place"]["l"]) == "bool":
+                        val = const_int(st["rv"]["op"])
+                    if st["k"] == "assign" and st["rv"]["k"] == "agg" and st["rv"].get("variant") == "Ok" and st["rv"]["ops"] and const_int(st["rv"]["ops"][0]) is not None \
+                            and "bool" in (f.local_ty(st["place"]["l"]) or ""):
+                        val = const_int(st["rv"]["ops"][0])
+                if val is not None:
+                    break
+                s_ = f.succs(b)
+                if len(s_) != 1:
+                    break
+                b = s_[0]
+            got[lit] = val
+            if val != want:
+                ok = False
+        best = (ok, got)
+        if ok:
+            break
+    ok, got = best if best else (False, {})
     run.check(ok, R, R + "|color-table", pc.loc(), "--color on/off map to true/false", "--color table is %s, expected on=1, off=0" % got)
 
 
@@ -968,7 +981,7 @@ def tab_cli_color_everywhere(run, R="TAB-cli"):
                 flags = [a for a, ty in zip(t["args"], t.get("arg_tys") or []) if ty == "bool"]
                 if len(flags) != 1 or const_int(flags[0]) is not None:
                     bad.append(f.loc(t["span"]))
-    run.check(n >= 2 and not bad, R, R + "|color|every-print", "-", "every print of the diagnostics takes its colour setting from the command line (%d site(s))" % n,
+    run.check(n >= 1 and not bad, R, R + "|color|every-print", "-", "every print of the diagnostics takes its colour setting from the command line (%d site(s))" % n,
               "the driver prints diagnostics with colours switched on unconditionally (%s): `--color=off prog.asm -f bogus` still prints ANSI escapes for the error about the command line" % ", ".join(bad))
 
 
@@ -1055,15 +1068,50 @@ def tab_cli_distinct_outputs(run, pc, R="TAB-cli"):
     """each output group writes its own file: two groups that would write to the same name (given or derived) are rejected before
     anything is assembled"""
     from rules_sym import deep as _deep
-    cands = [pc] + [h for h in (run.prog.fn(t.get("resolved") or "") for _, t in pc.calls() if t.get("resolved_local")) if h is not None and h.id.startswith("driver::")]
+    from mir import closure_of_origin
+    prog = run.prog
+    helpers = [h for h in (prog.fn(t.get("resolved") or "") for _, t in pc.calls() if t.get("resolved_local")) if h is not None and h.id.startswith("driver::")]
+    cands = [pc] + helpers
+
+    def names_file(f, op, depth=0):
+        """the operand is (or is computed by a driver helper from) a group's output file name"""
+        d = _deep(f, op, 8)
+        if ".output_filename" in d:
+            return True
+        if depth < 2:
+            for h in prog.real_fns():
+                if h.kind != "Closure" and h.id.startswith("driver::") and (h.id.split("::")[-1] + "(") in d:
+                    rets = [st["rv"] for bi, si, st in h.stmts() if st["k"] == "assign" and st["place"]["l"] == 0 and not st["place"]["p"]]
+                    if any(".output_filename" in _deep(h, (rv.get("op") or (rv.get("ops") or [None])[0]), 8) for rv in rets if (rv.get("op") or rv.get("ops"))) \
+                            or any(".output_filename" in _deep(h, t["args"][0], 8) for bi, t in h.calls() if t["dest"]["l"] == 0 and t["args"]):
+                        return True
+        return False
+
+    def compares_names(f, t, one_side=False):
+        c = t.get("callee") or ""
+        if c not in ("std::cmp::PartialEq::eq", "std::cmp::PartialEq::ne") or len(t["args"]) != 2:
+            return False
+        hits = [names_file(f, a) for a in t["args"]]
+        if one_side:
+            return any(hits)
+        return all(hits) and _deep(f, t["args"][0], 6) != _deep(f, t["args"][1], 6)
+
     ok = False
     for f in cands:
         for bi, t in f.calls():
             c = t.get("callee") or ""
-            if c not in ("std::cmp::PartialEq::eq", "std::cmp::PartialEq::ne") or len(t["args"]) != 2:
-                continue
-            ds = [_deep(f, a, 6) for a in t["args"]]
-            if not all(d.endswith(".output_filename") for d in ds) or ds[0] == ds[1]:
+            site = compares_names(f, t)
+            negate = c.endswith("ne")
+            if not site and re.search(r"Iterator>?::any(::<.*)?$|::contains(::<.*)?$", c) and len(t["args"]) == 2:
+                # the comparison sits in the closure handed to `any` (the other side is a captured name), or is `contains` itself
+                cid = closure_of_origin(f.origin_op(t["args"][1]))
+                g = prog.fn(cid) if cid else None
+                if g is not None:
+                    site = any(compares_names(g, t2, one_side=True) for _, t2 in g.calls())
+                else:
+                    site = names_file(f, t["args"][0]) or names_file(f, t["args"][1])
+                negate = False
+            if not site:
                 continue
             bt = T.bool_test(f, t)
             if bt is None:
@@ -1072,7 +1120,7 @@ def tab_cli_distinct_outputs(run, pc, R="TAB-cli"):
                 for e in f.succs(bi):
                     reg |= T.reach_following_consts(f, e)
             else:
-                same_edge = bt[0] if c.endswith("eq") else bt[1]
+                same_edge = bt[1] if negate else bt[0]
                 reg = T.reach_following_consts(f, same_edge)
             if report_error_in_region(f, reg) and err_return_in_region(f, reg):
                 ok = True
